@@ -530,3 +530,33 @@ Theorem tls_rejects_both : forall name ns d wildcard path_of st,
   vs_ssl_config (Some name) ns d wildcard path_of = Some (mkSsl true "") /\
   ingress_ssl_config (Some name) ns d wildcard path_of = Some (mkSsl true "").
 Proof. intros. split; [eapply tls_rejects_vs | eapply tls_rejects_ingress]; eauto. Qed.
+
+(* ---------------------------------------------------------------- Secrets over time *)
+
+Lemma assoc_filter_out : forall A k (l : list (string * A)),
+  assoc k (filter (fun x => negb (String.eqb k (fst x))) l) = None.
+Proof.
+  induction l as [|[k' v] l IH]; [reflexivity|]. cbn [filter fst].
+  destruct (String.eqb k k') eqn:E; cbn [negb]; [exact IH|]. cbn [assoc]. rewrite E. exact IH.
+Qed.
+
+(* a Secret whose last event is its deletion is Missing for every consumer, whatever it was before *)
+Theorem deleted_secret_missing : forall h k d ty,
+  d_secrets d = secrets_of_history (h ++ [SecDelete k]) ->
+  secret_state d ty k = SMissing.
+Proof.
+  intros h k d ty H. unfold secret_state, store_lookup. rewrite H.
+  unfold secrets_of_history. rewrite fold_left_app. cbn [fold_left sec_step].
+  rewrite assoc_filter_out. reflexivity.
+Qed.
+
+Theorem deleted_tls_secret_rejects : forall h name ns d wildcard path_of,
+  name <> "" ->
+  d_secrets d = secrets_of_history (h ++ [SecDelete (nskey ns name)]) ->
+  vs_ssl_config (Some name) ns d wildcard path_of = Some (mkSsl true "") /\
+  ingress_ssl_config (Some name) ns d wildcard path_of = Some (mkSsl true "").
+Proof.
+  intros h name ns d wildcard path_of N H.
+  apply (tls_rejects_both name ns d wildcard path_of SMissing N); [|left; reflexivity].
+  eapply deleted_secret_missing; exact H.
+Qed.
